@@ -182,18 +182,23 @@ def r5(p, rep):
     defs = [a for h in scope for a in walk_no_nested(h.node) if isinstance(a, ast.Assign) and norm(a.targets[0]) == norm(names)]
     ok = bool(defs) and ".nodes()" in norm(defs[0].value) and ".name" in norm(defs[0].value) and "out" in norm(defs[0].value)
     rep.add("C07.R5", f"{f.qualname}:axes_names_out", f.loc, ok, f"{norm(names)} = names of all axes of the output expression")
-    cond = [a for h in scope for a in walk_no_nested(h.node) if isinstance(a, ast.Assign) and isinstance(a.value, ast.BoolOp) and norm(a.value.values[0]) == "mark_reduced_axes"]
-    v = cond[0].value if cond else None
-    ok = (
-        isinstance(v, ast.BoolOp)
-        and isinstance(v.op, ast.And)
-        and len(v.values) == 2
-        and isinstance(v.values[1], ast.UnaryOp)
-        and isinstance(v.values[1].op, ast.Not)
-        and norm(v.values[1].operand).startswith("any(")
-        and "stage1.Brackets" in norm(v)
-        and "exprs_in" in norm(v)
-    )
+    # the marking code runs only under `mark_reduced_axes` and `not any(<a node of an input is a Brackets>)`: facts that
+    # guard the marking predicate (through the lexical nesting of closures up to _parse_op), named booleans written out
+    facts = []
+    h, at = g, n
+    while h is not None:
+        facts += common.cfg_of(h).guards_of_ast(at)
+        if h is f:
+            break
+        at, h = h.node, h.parent
+    if h is None:
+        # the predicate lives in a helper outside _parse_op: facts at its call sites inside _parse_op
+        for c in walk_no_nested(f.node):
+            if isinstance(c, ast.Call) and norm(c.func).split(".")[-1] == g.name:
+                facts += common.cfg_of(f).guards_of_ast(c)
+    flag = any(pol and norm(t) == "mark_reduced_axes" for t, pol in facts)
+    nobr = any((not pol) and isinstance(t, ast.Call) and norm(t.func) == "any" and "stage1.Brackets" in norm(t) and "exprs_in" in norm(t) for t, pol in facts)
+    ok = flag and nobr
     rep.add("C07.R5", f"{f.qualname}:only-without-brackets", f.loc, ok, "automatic marking applies only if no input has brackets")
 
 
